@@ -63,6 +63,58 @@ fn nonconformable_huge(out: &mut Out) {
     }
 }
 
+/// products with ONE operand of zero-sized elements (a multiplicative unit): the zero-sized operand
+/// goes through the zero-sized paths of transpose / set_order inside `multiply`
+#[derive(Clone, Copy, Default)]
+struct One;
+impl std::ops::Mul<One> for u64 { type Output = u64; fn mul(self, _: One) -> u64 { self } }
+impl std::ops::Mul<u64> for One { type Output = u64; fn mul(self, y: u64) -> u64 { y } }
+
+fn zero_sized_operand(out: &mut Out) {
+    use matreex::Matrix;
+    out.case("mul one operand of zero-sized elements");
+    out.nontrivial();
+    for n in 0..=3usize {
+        for k in 0..=3usize {
+            for m in 0..=3usize {
+                for oa in ORDERS {
+                    for ob in ORDERS {
+                        for side in ["RZ", "LZ"] {
+                            let op = format!("mulz {side} {} {n} {k} {} {m}", ord_ch(oa), ord_ch(ob));
+                            out.announce(&op);
+                            let res: Option<Result<Matrix<u64>, matreex::Error>> = if side == "RZ" {
+                                let a = mk(oa, n, k, |i| i as u64 + 1);
+                                let b = mk(ob, k, m, |_| One);
+                                catch(|| a.multiply(b))
+                            } else {
+                                let a = mk(oa, n, k, |_| One);
+                                let b = mk(ob, k, m, |i| i as u64 + 1);
+                                catch(|| a.multiply(b))
+                            };
+                            // oracle: row sums of lhs (RZ) / column sums of rhs (LZ), in lhs order
+                            let val = |o: matreex::Order, r: usize, c: usize, nr: usize, nc: usize| -> u64 { (match o { matreex::Order::RowMajor => r * nc + c, matreex::Order::ColMajor => c * nr + r }) as u64 + 1 };
+                            let want: Vec<Vec<u64>> = (0..n).map(|i| (0..m).map(|j| (0..k).map(|t| if side == "RZ" { val(oa, i, t, n, k) } else { val(ob, t, j, k, m) }).sum()).collect()).collect();
+                            let obs = match res {
+                                None => { out.oracle_fail(&format!("{op}: panicked")); "panic".to_string() }
+                                Some(Err(e)) => { out.oracle_fail(&format!("{op}: conformable operands gave {}", err_name(e))); format!("err {}", err_name(e)) }
+                                Some(Ok(c)) => {
+                                    if (c.nrows(), c.ncols(), c.order()) != (n, m, oa) { out.oracle_fail(&format!("{op}: result is {}x{} {:?}", c.nrows(), c.ncols(), c.order())); }
+                                    else {
+                                        for i in 0..n { for j in 0..m { if c[(i, j)] != want[i][j] { out.oracle_fail(&format!("{op}: element ({i}, {j}) is {} instead of {}", c[(i, j)], want[i][j])); } } }
+                                    }
+                                    format!("ok {} {}x{} [{}]", ord_ch(c.order()), c.nrows(), c.ncols(), c.iter_elements().map(|x| x.to_string()).collect::<Vec<_>>().join(","))
+                                }
+                            };
+                            out.count("shape:zero-sized-operand");
+                            out.observe(&obs);
+                        }
+                    }
+                }
+            }
+        }
+    }
+}
+
 pub fn run_c11(out: &mut Out, rng: &mut Rng, tier: Tier) -> String {
     ledger_reset();
     let bound = 3;
@@ -91,6 +143,7 @@ pub fn run_c11(out: &mut Out, rng: &mut Rng, tier: Tier) -> String {
         one(out, n, k, k, m, &kind);
     }
     nonconformable_huge(out);
+    zero_sized_operand(out);
     let s = snapshot();
     if s.double_drops > 0 || s.live != 0 {
         out.oracle_fail(&format!("ledger at the end of the run: {} tokens still live, {} double drops", s.live, s.double_drops));
@@ -98,7 +151,7 @@ pub fn run_c11(out: &mut Out, rng: &mut Rng, tier: Tier) -> String {
     out.exhaustive = true;
     format!(
         "exhaustive core: all shape triples (n, k, m) in {{0..={bound}}}^3 x four storage-order combinations x multiply, multiplication_like_operation (recording closure) and the four owned/borrowed * operator forms; \
-         non-conformable pairs with inner dimensions from {{0,1,2}}; non-conformable element-less operands whose would-be result has 2^32 .. usize::MAX rows or columns (the conformability error must win over SizeOverflow / CapacityOverflow), multiply / multiplication_like_operation / the * operator, four order combinations; {extra} random triples up to 6x6x6. Elements are symbolic tokens with destructors: products and sums are terms such as ((a'*b')+(c'*d')), \
+         non-conformable pairs with inner dimensions from {{0,1,2}}; products with one operand of zero-sized elements (all shape triples up to 3, four order combinations, either side); non-conformable element-less operands whose would-be result has 2^32 .. usize::MAX rows or columns (the conformability error must win over SizeOverflow / CapacityOverflow), multiply / multiplication_like_operation / the * operator, four order combinations; {extra} random triples up to 6x6x6. Elements are symbolic tokens with destructors: products and sums are terms such as ((a'*b')+(c'*d')), \
          so factor order, k order, association and clone placement are visible. Oracle: textbook product over terms in an independent reference, result in lhs order, Ok/ShapeNotConformable/panic, closure call count and slice lengths, borrowed operands unchanged, ledger balanced. \
          A case is non-trivial when conformable with n*k*m > 1"
     )
